@@ -18,6 +18,9 @@ CLAIMED = {
  "C05": ("must-precede / must-follow ordering on SSA CFGs, guard-dominance, fsync must-pass-through over the resolved call chain, single-batch writer discipline, publish-last ordering over the VTA call tree (writer order vs the recovery reader's dereference chain)",
          "Decides the write-ahead, fsync-before-act, save→end-marker→apply and atomic-batch shapes on every path, the catch-up replay guards, and whether every record recovery dereferences from the head height is written before the head marker (flags the consensus-state record as an open finding). Does not decide post-crash store consistency or double-sign freedom over crash points.",
          "DESIGN.md §4 C05"),
+ "C04": ("exhaustiveness of the timeout table (scheduled step constants against handleTimeout's cases), must-pass-through of scheduleTimeout behind each step's entry guard, guard/operand checks of round skipping, rotation amount, committed-block fetching and next-height scheduling, staleness filters of handler and ticker in normal form, inventory of blocking channel operations reachable under the consensus state lock, lock pairing",
+         "Decides structural necessary conditions of progress only: every wait the state machine enters has a scheduled wake-up that handleTimeout handles and that moves to the next step or round; stale-timeout filters drop only strictly older requests; +2/3 of a later round makes the node skip to it with the proposer rotated by the rounds skipped; a commit for an unknown block installs the part set to fetch it and completing it finalises; a committed height schedules the next; nothing reachable from handleMsg/handleTimeout blocks on a channel while the state lock is held (one tabled buffered send); every lock is released on every path. Does not decide termination within a bounded number of rounds, a fresh network's first block, absence of livelock, or timing — those are quantified over schedules and are out of reach of a static argument.",
+         "DESIGN.md §4 C04"),
  "C06": ("effect/determinism lint over the call tree of block execution (VTA call graph, ~960 functions): map-iteration loops classified by their order-sensitive sinks (accumulating appends without a later sort, hash/buffer/stream writes, log records, sends) against a frozen reason table; forward def-use tracking of wall-clock/random/environment values to metrics/log/tracer sinks; goroutine-start inventory; ordering and operand rules for sequential transaction application; sort-before-scan and total-order comparator checks for validator updates; who-may-read of the HTTP-fetched blacklist",
          "Decides structural necessary conditions of deterministic execution: no map iteration order, clock, random or environment value reachable from CommitAndValidateBlockTxs/updateState can reach results (only metrics, logs, tracer callbacks, GC timing), goroutines on the path are joined or result-neutral (tabled), transactions are applied one by one in block order with their index and failed ones reverted, block info is built from receipts in that order, validator changes are copied and sorted before use and the resulting set sorted by a total order, and the application's validator list reaches consensus only through that path. Does not decide result equality across cache/snapshot/prefetcher configurations and runs, the staking contract's bytecode, or data races.",
          "DESIGN.md §4 C06"),
